@@ -229,3 +229,9 @@ package compile
 //@ func Expr
 //@   prop C09
 //@   ensures recursion_option_kept: result != nil && result.Recursion == old(opts.Recursion) && opts.Recursion == old(opts.Recursion)
+
+// ---- parentheses (C02): what unparen returns is never itself parenthesised, however many pairs
+// there were -- the assignment compiler panics on anything it does not recognise as a target
+//@ func unparen
+//@   prop C02
+//@   ensures all_parentheses_removed: !typeis(result, *syntax.ParenExpr)
